@@ -1,3 +1,273 @@
-/- C03: property theorems (none yet). -/
+/-
+C03 — Compilation is total and sound on arbitrary input bytes: property theorems.
+
+Part 1 (this section): the LEB128 decoders and encoders of `internal/leb128` (model `Wz.Model.Leb128`,
+tied to the code by the differential run of hc03).
+-/
+import Wz.Proofs.C03_Leb
+import Wz.Proofs.C03_Frame
+import Wz.Proofs.C03_Validator
 namespace Wz.C03
+open Wz.Model.Leb128 Wz.C03.Leb Wz.Model.Frame
+
+deriving instance DecidableEq for Except
+
+/-! ## LEB128 -/
+
+/-- Every decoder returns an error or `(v, n)` with `1 ≤ n ≤ 5` (resp. 10), `n ≤ length` (it never
+reads past the input — also on unbounded runs of continuation bytes, which the signed decoders walk to
+the end) and `v` inside the range of the Go result type. -/
+theorem leb_total_bounded (bs : List Byte) :
+    (∀ v n, decodeUint32 bs = .ok (v, n) → 1 ≤ n ∧ n ≤ 5 ∧ n ≤ bs.length ∧ v < 2 ^ 32) ∧
+    (∀ v n, loadUint64 bs = .ok (v, n) → 1 ≤ n ∧ n ≤ 10 ∧ n ≤ bs.length ∧ v < 2 ^ 64) ∧
+    (∀ v n, decodeInt32 bs = .ok (v, n) → 1 ≤ n ∧ n ≤ 5 ∧ n ≤ bs.length ∧ -(2 ^ 31 : Int) ≤ v ∧ v < 2 ^ 31) ∧
+    (∀ v n, decodeInt64 bs = .ok (v, n) → 1 ≤ n ∧ n ≤ 10 ∧ n ≤ bs.length ∧ -(2 ^ 63 : Int) ≤ v ∧ v < 2 ^ 63) ∧
+    (∀ v n, decodeInt33 bs = .ok (v, n) → 1 ≤ n ∧ n ≤ 5 ∧ n ≤ bs.length ∧ -(2 ^ 32 : Int) ≤ v ∧ v < 2 ^ 32) := by
+  refine ⟨?_, ?_, ?_, ?_, ?_⟩
+  · intro v n h; have := u32Loop_bounds 5 0 0 bs v n h; omega
+  · intro v n h; have := u64Loop_bounds 10 0 0 bs v n h; omega
+  · intro v n h; have := i32Loop_bounds bs 0 0 v n h; omega
+  · intro v n h; have := i64Loop_bounds bs 0 0 v n h; omega
+  · intro v n h
+    rw [decodeInt33_eq] at h
+    unfold i33Post at h
+    split at h
+    · simp at h
+    · rename_i acc m b heq
+      have hb := i33Loop_bounds 5 0 0 0#8 bs acc m b heq
+      obtain ⟨hv, hm, _⟩ := i33Final_ok h
+      have hr := i33Ret_range (7 * m) acc b
+      subst hv; subst hm
+      omega
+
+/-- A successful decode depends only on the `n` bytes it consumed: replacing everything after them
+changes nothing (so the decoders cannot be influenced by, or read, later bytes). -/
+theorem leb_reads_only_consumed (bs sfx : List Byte) :
+    (∀ v n, decodeUint32 bs = .ok (v, n) → decodeUint32 (bs.take n ++ sfx) = .ok (v, n)) ∧
+    (∀ v n, loadUint64 bs = .ok (v, n) → loadUint64 (bs.take n ++ sfx) = .ok (v, n)) ∧
+    (∀ v n, decodeInt32 bs = .ok (v, n) → decodeInt32 (bs.take n ++ sfx) = .ok (v, n)) ∧
+    (∀ v n, decodeInt64 bs = .ok (v, n) → decodeInt64 (bs.take n ++ sfx) = .ok (v, n)) ∧
+    (∀ v n, decodeInt33 bs = .ok (v, n) → decodeInt33 (bs.take n ++ sfx) = .ok (v, n)) := by
+  refine ⟨?_, ?_, ?_, ?_, ?_⟩
+  · intro v n h; simpa [decodeUint32] using u32Loop_prefix 5 0 0 bs v n sfx h
+  · intro v n h; simpa [loadUint64] using u64Loop_prefix 10 0 0 bs v n sfx h
+  · intro v n h; simpa [decodeInt32] using i32Loop_prefix bs 0 0 v n sfx h
+  · intro v n h; simpa [decodeInt64] using i64Loop_prefix bs 0 0 v n sfx h
+  · intro v n h
+    rw [decodeInt33_eq] at h ⊢
+    unfold i33Post at h
+    split at h
+    · simp at h
+    · rename_i acc m b heq
+      obtain ⟨_, hm, _⟩ := i33Final_ok h
+      subst hm
+      have := i33Loop_prefix 5 0 0 0#8 bs acc n b sfx heq
+      simp only [Nat.sub_zero] at this
+      rw [this]
+      exact h
+
+/-- Round trip for ALL values of each type and all suffixes: decoding an encoding gives the value back
+and consumes exactly the encoding (`EncodeUint32/64` = `encU`, `EncodeInt32/64` = `encS`; the 33-bit
+block-type decoder reads what `EncodeInt64` writes for any 33-bit value). -/
+theorem leb_roundtrip (sfx : List Byte) :
+    (∀ v : Nat, v < 2 ^ 32 → decodeUint32 (encU v ++ sfx) = .ok (v, (encU v).length)) ∧
+    (∀ v : Nat, v < 2 ^ 64 → loadUint64 (encU v ++ sfx) = .ok (v, (encU v).length)) ∧
+    (∀ v : Int, -(2 ^ 31 : Int) ≤ v → v < 2 ^ 31 → decodeInt32 (encS v ++ sfx) = .ok (v, (encS v).length)) ∧
+    (∀ v : Int, -(2 ^ 63 : Int) ≤ v → v < 2 ^ 63 → decodeInt64 (encS v ++ sfx) = .ok (v, (encS v).length)) ∧
+    (∀ v : Int, -(2 ^ 32 : Int) ≤ v → v < 2 ^ 32 → decodeInt33 (encS v ++ sfx) = .ok (v, (encS v).length)) :=
+  ⟨fun v h => u32_roundtrip v h sfx, fun v h => u64_roundtrip v h sfx, fun v h1 h2 => i32_roundtrip v h1 h2 sfx,
+   fun v h1 h2 => i64_roundtrip v h1 h2 sfx, fun v h1 h2 => i33_roundtrip v h1 h2 sfx⟩
+
+/-- Encodings are short: at most 5 bytes for 32-bit and 10 bytes for 64-bit values. -/
+theorem leb_encode_length (v : Nat) (w : Int) :
+    (v < 2 ^ 32 → (encU v).length ≤ 5) ∧ (v < 2 ^ 64 → (encU v).length ≤ 10) ∧
+    (-(2 ^ 31 : Int) ≤ w → w < 2 ^ 31 → (encS w).length ≤ 5) ∧ (-(2 ^ 63 : Int) ≤ w → w < 2 ^ 63 → (encS w).length ≤ 10) := by
+  refine ⟨?_, ?_, ?_, ?_⟩
+  · intro h
+    have r := u32_roundtrip v h []
+    have := u32Loop_bounds 5 0 0 _ _ _ r
+    omega
+  · intro h
+    have r := u64_roundtrip v h []
+    have := u64Loop_bounds 10 0 0 _ _ _ r
+    omega
+  · intro h1 h2
+    have r := i32_roundtrip w h1 h2 []
+    have := i32Loop_bounds _ 0 0 _ _ r
+    omega
+  · intro h1 h2
+    have r := i64_roundtrip w h1 h2 []
+    have := i64Loop_bounds _ 0 0 _ _ r
+    omega
+
+/-- The 5th byte of an unsigned 32-bit value may only carry 4 bits: with four continuation bytes in
+front, a terminating 5th byte is accepted iff it is < 16 (and then all 32 bits are significant). -/
+theorem leb_u32_canonical_range (b0 b1 b2 b3 b4 : Byte) (rest : List Byte)
+    (h0 : 0x80 ≤ b0.toNat) (h1 : 0x80 ≤ b1.toNat) (h2 : 0x80 ≤ b2.toNat) (h3 : 0x80 ≤ b3.toNat) (h4 : b4.toNat < 0x80) :
+    decodeUint32 (b0 :: b1 :: b2 :: b3 :: b4 :: rest) =
+      if b4.toNat < 16 then
+        .ok (b0.toNat % 128 + b1.toNat % 128 * 2 ^ 7 + b2.toNat % 128 * 2 ^ 14 + b3.toNat % 128 * 2 ^ 21 + b4.toNat * 2 ^ 28, 5)
+      else .error .overflow := by
+  have n0 : ¬ b0.toNat < 128 := by omega
+  have n1 : ¬ b1.toNat < 128 := by omega
+  have n2 : ¬ b2.toNat < 128 := by omega
+  have n3 : ¬ b3.toNat < 128 := by omega
+  have hb4 : b4.toNat < 256 := by omega
+  simp only [decodeUint32, u32Loop, n0, n1, n2, n3, h4, if_true, if_false, mask7f, true_and]
+  by_cases hc : b4.toNat < 16
+  · have : b4 &&& 0xf0#8 = 0#8 := (maskf0 b4).mpr (by omega)
+    simp [this, hc]
+    omega
+  · have : ¬ (b4 &&& 0xf0#8 = 0#8) := fun h => by have := (maskf0 b4).mp h; omega
+    simp [this, hc]
+
+/-- … and a 5-byte run of continuation bytes is rejected whatever follows (bounded loop). -/
+theorem leb_u32_five_continuations_rejected (b0 b1 b2 b3 b4 : Byte) (rest : List Byte)
+    (h0 : 0x80 ≤ b0.toNat) (h1 : 0x80 ≤ b1.toNat) (h2 : 0x80 ≤ b2.toNat) (h3 : 0x80 ≤ b3.toNat) (h4 : 0x80 ≤ b4.toNat) :
+    decodeUint32 (b0 :: b1 :: b2 :: b3 :: b4 :: rest) = .error .overflow := by
+  have n0 : ¬ b0.toNat < 128 := by omega
+  have n1 : ¬ b1.toNat < 128 := by omega
+  have n2 : ¬ b2.toNat < 128 := by omega
+  have n3 : ¬ b3.toNat < 128 := by omega
+  have n4 : ¬ b4.toNat < 128 := by omega
+  simp [decodeUint32, u32Loop, n0, n1, n2, n3, n4]
+
+/-- non-vacuity of the hypotheses above, and concrete values (tests by evaluation) -/
+example : decodeUint32 [0xff#8, 0xff#8, 0xff#8, 0xff#8, 0x0f#8, 0x00#8] = .ok (4294967295, 5) := by decide
+example : decodeUint32 [0xff#8, 0xff#8, 0xff#8, 0xff#8, 0x1f#8] = .error .overflow := by decide
+example : decodeUint32 [0x80#8, 0x80#8, 0x80#8, 0x80#8, 0x01#8] = .ok (2 ^ 28, 5) := by decide
+example : decodeInt32 [0x7f#8] = .ok (-1, 1) := by decide
+example : decodeInt33 [0x40#8] = .ok (-64, 1) := by decide
+
+set_option maxRecDepth 100000 in
+/-- Observation (leniency, not a violation of C03): the signed decoders check only SOME of the unused
+bits of the last byte — bit 6 is never looked at.  `80 80 80 80 3f` is accepted as an int32 (the
+specification requires bits 4–6 of the 5th byte to equal the sign bit, i.e. `7f`), `80 80 80 80 47` as
++1879048192 (bit 6 set on a non-negative value). -/
+theorem leb_i32_unused_bit6_unchecked_witness :
+    decodeInt32 [0x80#8, 0x80#8, 0x80#8, 0x80#8, 0x3f#8] = .ok (-268435456, 5) ∧
+    decodeInt32 [0x80#8, 0x80#8, 0x80#8, 0x80#8, 0x47#8] = .ok (1879048192, 5) := by decide +kernel
+
+set_option maxRecDepth 100000 in
+/-- Observation: `DecodeInt33AsInt64` stops after five bytes even when the fifth byte still has its
+continuation bit set, and accepts it (`ff ff ff ff ff` decodes to -1 with 5 bytes consumed). -/
+theorem leb_i33_fifth_continuation_accepted_witness :
+    decodeInt33 [0xff#8, 0xff#8, 0xff#8, 0xff#8, 0xff#8] = .ok (-1, 5) := by decide +kernel
+
+/-! ## Section framing and what the decoder reserves before it reads (finding F3a)
+
+Full statement of the property for this part: `∀ bs, allocUnits bs ≤ K * bs.length` — the memory the
+decoder reserves from counts it has merely READ is proportional to the input.  It is FALSE for the
+decoder as pinned (`alloc_witness`, `alloc_not_proportional_asIs`) and holds for the repaired decoder
+(`alloc_proportional`, variant `.capped` = repo_patches/C03-fix-F3a.diff).  hc03 replays the witness on
+every run and ties the variant the code matches.  Partial with respect to the whole property: the model
+covers the top-level vector of each section and custom sections; nested vectors (parameter/result types,
+names, element/data vectors, code bodies, name maps) follow the same `reserve` rule
+(`reserve_capped_le_remaining`) but are not walked by the model, the number of declared locals is not
+bounded by anything (finding F3b), and the engines' own allocations are monitored, not modelled. -/
+
+/-- repaired decoder: never more than 3 units per input byte, for every input -/
+theorem alloc_proportional (bs : List Byte) : allocUnits .capped bs ≤ 3 * bs.length :=
+  Wz.C03.Frame.frame_alloc_capped bs
+
+/-- the rule each (also nested) vector follows in the repaired decoder -/
+theorem reserve_capped_le_remaining (n remaining : Nat) : reserve .capped n remaining ≤ remaining :=
+  (Wz.C03.Frame.reserve_capped_le n remaining).1
+
+/-- F3a: the 15-byte witness makes the pinned decoder reserve 2^28 elements (× 80 bytes = 20 GiB),
+the repaired one none -/
+theorem alloc_witness :
+    f3aWitness.length = 15 ∧ allocUnits .asIs f3aWitness = 2 ^ 28 ∧ allocUnits .capped f3aWitness = 0 ∧
+    (frame .asIs f3aWitness).verdict = "count-exceeds-section" := by
+  decide +kernel
+
+/-- hence no bound of the shape the monitor uses (4096 units per byte + 2^26) holds for the pinned decoder -/
+theorem alloc_not_proportional_asIs : ¬ ∀ bs : List Byte, allocUnits .asIs bs ≤ 4096 * bs.length + 2 ^ 26 := by
+  intro h
+  have := h f3aWitness
+  have w := alloc_witness
+  rw [w.1, w.2.1] at this
+  omega
+
+/-- the variants differ ONLY in what they reserve: same verdict, same sections -/
+theorem variants_same_walk_witness :
+    (frame .asIs f3aWitness).secs = (frame .capped f3aWitness).secs := by decide +kernel
+
+/-- non-vacuity / test by evaluation: a well-formed two-section module is walked to the end -/
+example : (frame .capped (magic ++ version ++ [0x01#8, 0x04#8, 0x01#8, 0x60#8, 0x00#8, 0x00#8, 0x03#8, 0x02#8, 0x01#8, 0x00#8])).verdict = "ok" := by
+  decide +kernel
+
+/-! ## The function-body validator on fragment W0 (`Wz.Model.Validator`, proofs in `Wz.C03v`)
+
+`check` is the algorithm of `func_validation.go` (operand stack with the unknown marker and stack limits,
+control stack) on the nested syntax of W0; `WellTyped` are the declarative typing rules of the
+specification.  The model is compared with the real `Module.Validate` on generated bodies and token-level
+mutants (accept/reject must agree), and on every numeric instruction with every operand/result typing. -/
+
+open Wz.Model.Validator in
+/-- Soundness for ALL W0 bodies.  Finding switch (observation Q3/F37): the validator as pinned accepts
+alignment exponents ≥ 63 (`1<<align` is evaluated on a 64-bit int), which the specification rejects; the
+repaired validator accepts exactly the bodies with `check = ok ∧ alignSane`, and for those: -/
+theorem validate_sound_W0 (C : Ctx) (body : List TI) (hal : alignSane body = true)
+    (h : check C body = .ok ()) : WellTyped C body :=
+  Wz.C03v.validate_sound_W0 C body hal h
+
+open Wz.Model.Validator in
+/-- … and the as-is variant is NOT sound w.r.t. the declarative rules: `i32.const 0; i32.load align=2^64`
+is accepted by the algorithm and is not well typed (leniency only: both engines ignore the alignment). -/
+theorem validate_asIs_alignment_witness :
+    check Wz.C03v.C0 [.const .i32 0, .load .i32 32 false 64 0] = .ok () ∧
+    ¬ WellTyped Wz.C03v.C0 [.const .i32 0, .load .i32 32 false 64 0] := by
+  refine ⟨rfl, fun h => ?_⟩
+  have := Wz.C03v.hasType_load_align h .i32 32 false 64 0 (by simp)
+  omega
+
+open Wz.Model.Validator Wz.Spec.Wasm Wz.C03v in
+/-- "Engines pop without checks thanks to validation", for W0 and the reference semantics: in a module
+whose functions are all well typed, a call with its parameters on the stack NEVER reports the internal
+outcome `"stack"` (operand missing), for every fuel, function and store; nor `"unsupported"` when the
+numeric names in the code are known to `Num.scalar` (`NumOK`: a hypothesis — `scalar` dispatches on
+strings and is not evaluated symbolically; hc01 exercises every name against it). -/
+theorem welltyped_progress {m : Module} {tm : TModule} (hok : ModuleOK m tm) (fuel f : Nat) (fr : Frame)
+    (st : Store) (hf : f < tm.funcIdx.length) (hargs : (funcType m f).params.length ≤ fr.stack.length) :
+    (callFunc m fuel f fr st).1 ≠ .trap "stack" ∧
+      (NumOK tm → (callFunc m fuel f fr st).1 ≠ .trap "unsupported") :=
+  Wz.C03v.welltyped_progress hok fuel f fr st hf hargs
+
+open Wz.Model.Validator Wz.Spec.Wasm Wz.C03v in
+/-- the same for an export call with an argument list of the right length -/
+theorem welltyped_progress_invoke {m : Module} {tm : TModule} (hok : ModuleOK m tm) (fuel f : Nat)
+    (args : List Nat) (st : Store) (hf : f < tm.funcIdx.length)
+    (hargs : args.length = (funcType m f).params.length) :
+    (invoke m fuel f args st).1 ≠ .trap "stack" ∧
+      (NumOK tm → (invoke m fuel f args st).1 ≠ .trap "unsupported") :=
+  Wz.C03v.welltyped_progress_invoke hok fuel f args st hf hargs
+
+open Wz.Model.Validator Wz.Spec.Wasm Wz.C03v in
+/-- Composition: what the (repaired) validator ALGORITHM accepts never makes the reference semantics pop
+an empty stack.  `m` is the erasure of `tm`; imports have at most one result (the reference `hostResult`
+returns at most one value); table entries are function indices. -/
+theorem validated_never_pops_empty {m : Module} {tm : TModule}
+    (h1 : m.types = tm.types) (h2 : m.imports = tm.imports)
+    (h3 : m.funcs = tm.funcs.map (fun f => ⟨f.type, f.locals, erase f.body⟩)) (h4 : m.table = tm.table)
+    (himp : ∀ ti, ti ∈ tm.imports → (tm.types.getD ti default).results.length ≤ 1)
+    (htab : ∀ fi, fi ∈ tm.table → fi < tm.funcIdx.length)
+    (hchk : ∀ f, f ∈ tm.funcs → check (tm.ctx f) f.body = .ok () ∧ alignSane f.body = true)
+    (fuel f : Nat) (args : List Nat) (st : Store) (hf : f < tm.funcIdx.length)
+    (hargs : args.length = (funcType m f).params.length) :
+    (invoke m fuel f args st).1 ≠ .trap "stack" :=
+  (Wz.C03v.welltyped_progress_invoke
+    ⟨h1, h2, h3, h4, himp, fun g hg => Wz.C03v.validate_sound_W0 _ _ (hchk g hg).2 (hchk g hg).1, htab⟩
+    fuel f args st hf hargs).1
+
+open Wz.Model.Validator Wz.Spec.Wasm Wz.C03v in
+/-- non-vacuity: the concrete module `m0`/`tm0` (a block, a `br_if`, a recursive call, arithmetic) meets
+every hypothesis of `validated_never_pops_empty`; and an ill-typed body really does pop an empty stack. -/
+example : ∀ fuel arg st, (invoke m0 fuel 0 [arg] st).1 ≠ .trap "stack" := fun fuel arg st =>
+  validated_never_pops_empty (tm := tm0) rfl rfl rfl rfl (by intro ti h; cases h) (by intro fi h; cases h)
+    (by intro f hf; simp only [tm0, List.mem_singleton] at hf; subst hf; exact ⟨rfl, by decide⟩)
+    fuel 0 [arg] st (by decide) rfl
+open Wz.Model.Validator Wz.Spec.Wasm in
+example : (execSeq {} 5 (erase [.num "i32.add"]) {} {}).1 = .trap "stack" := by decide
+
 end Wz.C03
